@@ -15,27 +15,27 @@ over **every reference form** `Ref` (plain identifier, qualified path with ≥ 2
 one-segment path to a plain identifier, `lower.rs`).
 
 What is proved (state of /repo after c6822e4 + 3b64798, which repaired finding F12 — a `pub use` published a private
-member).
-* `C17_no_private_route`: in a tree **without duplicate function declarations** in which **no `pub use` exports a name
-  that is also declared as a function** (`reexportsFresh`, syntactic) — any number of re-exports of anything otherwise —,
-  a reference that resolution accepts (no `PrivateMemberAccess`) never names a private member of a module that does not
-  enclose the use site.  Layers: `C17_no_private_route_vis_faithful` (any tree whose visibility map agrees with the
-  declarations, `visFaithful`, decidable per tree; the hypothesis `reexportsPublic` it needed before 3b64798 is gone),
-  `C17_vis_faithful_of_fresh` (the syntactic condition implies `visFaithful`: the map can be unfaithful only through a
-  duplicate declaration or a re-export of a declared name), `C17_no_private_route_consistent` (sharpest: private functions
-  only), `C17_no_private_route_partial` (no re-exports at all; the old theorem, now a corollary).
-* `C17_reexport_of_private_rejected`, `_self_rejected`, `_ident_rejected`, `_before_decl_rejected`: the three witnesses of
-  the old leak and the order-dependent case (re-export standing before the private function; closed by 3b64798 only) are
-  rejected; `C17_no_private_route_class_boundary`: they and fixture `module_pub_use.mmm` lie in the `visFaithful` class.
-* The unrestricted statement is **still false of the code** (finding F12-cycle):
-  `C17_no_private_route_refuted_reexport_cycle` is a machine-checked witness — two re-exports naming each other, the
-  second one exporting the name of the private function itself —, `C17_no_private_route_false` the negated universal
-  statement.  The witness violates `reexportsFresh` (and has no duplicate declaration), so the hypothesis of
-  `C17_no_private_route` cannot simply be dropped.
+member —, and after the repair of F12-cycle — a re-export never replaces an existing visibility entry).
+* `C17_no_private_route`: in a tree **without duplicate function declarations** — any number of `use` / `pub use` /
+  wildcard statements re-exporting anything under any name —, a reference that resolution accepts (no
+  `PrivateMemberAccess`) never names a private member of a module that does not enclose the use site.  Layers:
+  `C17_no_private_route_vis_faithful` (any tree whose visibility map agrees with the declarations, `visFaithful`,
+  decidable per tree), `C17_vis_is_last_declaration` (all trees: at a declared name the map holds the last declaration,
+  whatever re-exports there are), `C17_vis_faithful_of_nodup`, `C17_no_private_route_consistent` (sharper: duplicates
+  allowed unless a private function shares its name with a `pub` one).
+* `C17_reexport_of_private_rejected`, `_self_rejected`, `_ident_rejected`, `_before_decl_rejected`, `_cycle_rejected`: the
+  three witnesses of F12, the order-dependent case (re-export standing before the private function; closed by 3b64798
+  only) and the witness of F12-cycle (two re-exports naming each other, the second exporting the private function's own
+  name) are rejected; `C17_no_private_route_class_boundary`: they and fixture `module_pub_use.mmm` have distinct declared
+  names, the witness below has not.
+* The unrestricted statement is **still false of the code** (finding F12-dup): `C17_no_private_route_refuted_dup` is a
+  machine-checked witness — a reopened module declares a private function's name again, `pub`; no `use` involved —,
+  `C17_no_private_route_false` the negated universal statement.  So the hypothesis of `C17_no_private_route` cannot
+  simply be dropped, and it is the only one.
 * `C17_no_private_route_vismap` / `_vismap_target`: for *all* trees, what the resolver enforces is exactly privacy w.r.t.
   its visibility map — at the name a path denotes and, for every `ModuleInfo` the flattening can build, at the name it
-  returns (invariant: a re-exported name is entered in the alias map and the visibility map together) —, which localises
-  the remaining defect: `register_alias` *overwrites* the entry of a declared function.
+  returns (invariant: a re-exported name is entered in the alias map and has an entry in the visibility map) —, which
+  localises the remaining defect: a second *declaration* overwrites the entry of the first.
 * `C17_resolves_to_denoted_*`: lookup order (absolute, then relative to the current module; innermost enclosing
   module first for plain identifiers), the flat mangled name space is the tree's path name space, uniqueness.
 * `C17_local_shadows_import*`: a lexically bound name is never rewritten, whatever is imported.
@@ -48,7 +48,7 @@ member).
   identifiers), `…_any_item` / `…_member` (functions and lets in any module, across items unrelated to the item's map
   key): same resolved body, same diagnostics, wherever the item stands.  The walk of the pinned tree before /repo
   8a25d9f and the walk of seeded change C17c are machine-checked counterexamples (`C17_item_order_relevant_*`).
-  `C17_site_context_is_enclosing_module_*` + `C17_no_private_route_program`: in programs without re-exports of declared names, duplicate
+  `C17_site_context_is_enclosing_module_*` + `C17_no_private_route_program`: in programs without duplicate
   functions and let-name clashes (`letNamesFresh`), no accepted reference occurrence inside any item names a private
   member of a module that does not enclose the item.  `C17_let_context_by_plain_name_refuted` (finding F12-letctx) and
   `C17_module_let_is_global*`, `C17_let_visibility_ignored` (finding F12-letglobal) say what the code does with
@@ -100,33 +100,30 @@ theorem C17_no_private_route_vis_faithful (evs : List Ev) (h : visFaithful evs =
   have := List.all_eq_true.mp h _ hpriv.1
   simpa using this
 
-/-- **no private route**, sharpest syntactic form: every tree in which no private function shares its mangled name with
-a `pub` function and no `pub use` exports the name of a private function — any number of re-exports otherwise,
-duplicate declarations of equal visibility allowed. -/
+/-- what the visibility map holds, for **all** trees: at every declared function name, the **last declaration** of that
+name — whatever `use` / `pub use` statements the tree contains and wherever they stand (a re-export never replaces an
+entry, a declaration always does).  So the map is unfaithful only when two declarations share a mangled name. -/
+theorem C17_vis_is_last_declaration (evs : List Ev) (s : Sym) (v : Bool)
+    (h : get? (fnDecls evs).reverse s = some v) : get? (lowerInfo evs).vis s = some v :=
+  lowerInfo_vis_last_decl evs s v h
+
+theorem C17_vis_faithful_of_nodup (evs : List Ev) (hnd : ((fnDecls evs).map (·.1)).Nodup) :
+    visFaithful evs = true :=
+  visFaithful_of_nodup evs hnd
+
+/-- **no private route**, for every tree **without duplicate function declarations** — any number of `use`, `pub use`,
+wildcard imports and `let`s, re-exporting anything under any name —, every position, every reference form:
+a reference that resolution accepts never names a private member of a module that does not enclose the use site. -/
+theorem C17_no_private_route (evs : List Ev) (hnd : ((fnDecls evs).map (·.1)).Nodup) : NoPrivateRoute evs :=
+  C17_no_private_route_vis_faithful evs (visFaithful_of_nodup evs hnd)
+
+/-- … sharper: duplicate declarations are harmless as long as no private function shares its mangled name with a
+`pub` function. -/
 theorem C17_no_private_route_consistent (evs : List Ev)
-    (hc : ∀ d ∈ fnDecls evs, d.2 = false → (d.1, true) ∉ fnDecls evs)
-    (hx : ∀ d ∈ fnDecls evs, d.2 = false → d.1 ∉ exportedNames evs) : NoPrivateRoute evs := by
+    (hc : ∀ d ∈ fnDecls evs, d.2 = false → (d.1, true) ∉ fnDecls evs) : NoPrivateRoute evs := by
   apply noPrivateRoute_of_private_faithful
   intro sym hpriv
-  exact vis_private_of_consistent evs sym hpriv.1 (hc _ hpriv.1 rfl) (hx _ hpriv.1 rfl)
-
-/-- the visibility map can be unfaithful only if (a) two declarations share a mangled name or (b) a `pub use` exports
-a name that is also the name of a declared function: otherwise it *is* the declarations. -/
-theorem C17_vis_faithful_of_fresh (evs : List Ev) (hnd : ((fnDecls evs).map (·.1)).Nodup)
-    (hfr : reexportsFresh evs = true) : visFaithful evs = true :=
-  visFaithful_of_fresh evs hnd hfr
-
-/-- **no private route**, for every tree without duplicate function declarations in which no `pub use` exports a name
-that is also declared as a function (`reexportsFresh`, a syntactic `Bool`), every position, every reference form:
-a reference that resolution accepts never names a private member of a module that does not enclose the use site. -/
-theorem C17_no_private_route (evs : List Ev) (hnd : ((fnDecls evs).map (·.1)).Nodup)
-    (hfr : reexportsFresh evs = true) : NoPrivateRoute evs :=
-  C17_no_private_route_vis_faithful evs (visFaithful_of_fresh evs hnd hfr)
-
-/-- the special case without any re-export (the theorem this file had before the resolver was repaired) -/
-theorem C17_no_private_route_partial (evs : List Ev) (hre : noPubUse evs = true)
-    (hnd : ((fnDecls evs).map (·.1)).Nodup) : NoPrivateRoute evs :=
-  C17_no_private_route evs hnd (reexportsFresh_of_noPubUse evs hre)
+  exact vis_private_of_consistent evs sym hpriv.1 (hc _ hpriv.1 rfl)
 
 /-! ### the re-exports of finding F12 are rejected now (/repo c6822e4 + 3b64798)
 
@@ -166,43 +163,57 @@ theorem C17_reexport_before_decl_rejected :
     (convertProgram (events f12order) .unit).2 = [⟨[1], some 2⟩] := by
   decide +kernel
 
-/-- the repaired fixtures lie inside the class of `C17_no_private_route_vis_faithful` (none of them in the class of
-the old `…_safe_reexports`, three of them outside the syntactic class), as does fixture `module_pub_use.mmm`, whose
-re-export of a public member is still accepted -/
-theorem C17_no_private_route_class_boundary :
-    visFaithful (events f12) = true ∧ visFaithful (events f12self) = true ∧ visFaithful (events f12wild) = true ∧
-    visFaithful (events f12order) = true ∧ visFaithful (events pubUseFixture) = true ∧
-    reexportsFresh (events f12) = true ∧ reexportsFresh (events f12self) = false ∧
-    reexportsFresh (events f12wild) = false ∧ reexportsFresh (events f12order) = true ∧
-    reexportsFresh (events pubUseFixture) = true ∧ noPubUse (events pubUseFixture) = false ∧
-    resolveRef ⟨lowerInfo (events pubUseFixture), knownOf (events pubUseFixture), [], []⟩ (.path [3, 2])
-      = ([1, 2], []) := by
+/-- finding F12-cycle, repaired (`visibility_map.entry(exported).or_insert(..)`):
+`mod a { mod x { pub use a::secret }  fn secret(){7.0}  pub use a::x::secret }`.  The second `pub use` exports the name of
+the private function itself; it no longer replaces the function's visibility entry (the alias cycle
+`a$secret → a$x$secret → a$secret` is still registered), so `a::secret` is rejected from the top level and from a
+sibling module, and still accepted inside `a`. -/
+theorem C17_reexport_cycle_rejected :
+    get? (lowerInfo (events f12cycle)).vis [1, 2] = some false ∧
+    get? (lowerInfo (events f12cycle)).alias [1, 2] = some [1, 5, 2] ∧
+    get? (lowerInfo (events f12cycle)).alias [1, 5, 2] = some [1, 2] ∧
+    resolveRef ⟨lowerInfo (events f12cycle), knownOf (events f12cycle), [], []⟩ (.path [1, 2])
+      = ([1, 2], [⟨[1], some 2⟩]) ∧
+    resolveRef ⟨lowerInfo (events f12cycle), knownOf (events f12cycle), [3], []⟩ (.path [1, 2])
+      = ([1, 2], [⟨[1], some 2⟩]) ∧
+    resolveRef ⟨lowerInfo (events f12cycle), knownOf (events f12cycle), [1], []⟩ (.path [1, 2]) = ([1, 2], []) ∧
+    (convertProgram (events f12cycle) .unit).2 = [⟨[1], some 2⟩] := by
   decide +kernel
 
-/-! ### the unrestricted statement is still false of the code (finding F12-cycle)
+/-- all repaired fixtures have distinct declared names (so they lie inside the class of `C17_no_private_route`), as does
+fixture `module_pub_use.mmm`, whose re-export of a public member is still accepted -/
+theorem C17_no_private_route_class_boundary :
+    ((fnDecls (events f12)).map (·.1)).Nodup ∧ ((fnDecls (events f12self)).map (·.1)).Nodup ∧
+    ((fnDecls (events f12wild)).map (·.1)).Nodup ∧ ((fnDecls (events f12order)).map (·.1)).Nodup ∧
+    ((fnDecls (events f12cycle)).map (·.1)).Nodup ∧ ((fnDecls (events pubUseFixture)).map (·.1)).Nodup ∧
+    noPubUse (events pubUseFixture) = false ∧
+    resolveRef ⟨lowerInfo (events pubUseFixture), knownOf (events pubUseFixture), [], []⟩ (.path [3, 2])
+      = ([1, 2], []) ∧
+    ¬ ((fnDecls (events f12dup)).map (·.1)).Nodup ∧ visFaithful (events f12dup) = false := by
+  decide +kernel
 
-`mod a { mod x { pub use a::secret }  fn secret(){7.0}  pub use a::x::secret }  fn dsp(){ a::secret() }` -/
+/-! ### the unrestricted statement is still false of the code (finding F12-dup)
 
-/-- F12-cycle: from the top level, `a::secret` is accepted and resolves to the private `a$secret`.  The tree has no
-duplicate declaration; its second `pub use` exports the name of the private function itself (`reexportsFresh` fails),
-which overwrites the function's visibility entry with that of the first re-export (public), and the two aliases form a
-cycle, so the chain ends where it started and no target is checked. -/
-theorem C17_no_private_route_refuted_reexport_cycle :
-    resolveRef ⟨lowerInfo (events f12cycle), knownOf (events f12cycle), [], []⟩ (.path [1, 2]) = ([1, 2], []) ∧
-    ([1, 2], false) ∈ fnDecls (events f12cycle) ∧ ¬ ([1, 2] : Sym).dropLast <+: [] ∧
-    (convertProgram (events f12cycle) .unit).2 = [] ∧
-    ((fnDecls (events f12cycle)).map (·.1)).Nodup ∧ reexportsFresh (events f12cycle) = false ∧
-    visFaithful (events f12cycle) = false ∧ exportedNames (events f12cycle) = [[1, 5, 2], [1, 2]] ∧
-    get? (lowerInfo (events f12cycle)).vis [1, 2] = some true ∧
-    get? (lowerInfo (events f12cycle)).alias [1, 2] = some [1, 5, 2] ∧
-    get? (lowerInfo (events f12cycle)).alias [1, 5, 2] = some [1, 2] := by
+`mod a { fn f(){1.0} }  fn probe(){ a::f() }  mod a { pub fn f(){2.0} }  fn dsp(){ probe() }` (`4 = f`, `6 = probe`) -/
+
+/-- F12-dup: a reopened module declares `a$f` a second time, `pub`; the visibility map keeps the last declaration, both
+definitions are emitted, and the reference in `probe` — accepted, no diagnostics in the whole program — names `a$f`, which
+the tree declares private (the definition in scope at `probe` is the private one: the compiled program returns 1).  No
+`use` statement is involved: the hypothesis `Nodup` of `C17_no_private_route` is the only thing this tree violates. -/
+theorem C17_no_private_route_refuted_dup :
+    resolveRef ⟨lowerInfo (events f12dup), knownOf (events f12dup), [], []⟩ (.path [1, 4]) = ([1, 4], []) ∧
+    ([1, 4], false) ∈ fnDecls (events f12dup) ∧ ¬ ([1, 4] : Sym).dropLast <+: [] ∧
+    (convertProgram (events f12dup) .unit).2 = [] ∧
+    ¬ ((fnDecls (events f12dup)).map (·.1)).Nodup ∧ noPubUse (events f12dup) = true ∧
+    get? (lowerInfo (events f12dup)).vis [1, 4] = some true ∧
+    fnDecls (events f12dup) = [([1, 4], false), ([6], false), ([1, 4], true), ([0], false)] := by
   decide +kernel
 
 /-- the universal statement of clause 1 still does not hold for the resolution algorithm as it stands -/
 theorem C17_no_private_route_false : ¬ ∀ evs : List Ev, NoPrivateRoute evs := by
   intro h
-  have w := C17_no_private_route_refuted_reexport_cycle
-  exact w.2.2.1 (h (events f12cycle) (knownOf (events f12cycle)) [] [] (.path [1, 2]) [1, 2] rfl w.1 ⟨w.2.1, by decide⟩)
+  have w := C17_no_private_route_refuted_dup
+  exact w.2.2.1 (h (events f12dup) (knownOf (events f12dup)) [] [] (.path [1, 4]) [1, 4] rfl w.1 ⟨w.2.1, by decide⟩)
 
 /-- the visibility written on a `mod` declaration has no effect on anything: flattening drops it
 (`ModuleDefinition { visibility: _, .. }`), so a nested module that is not `pub` can be traversed from outside
@@ -369,7 +380,7 @@ theorem C17_model_alias_chain_fuel_enough (alias : List (Sym × Sym)) (s : Sym) 
 
 /-! ### non-vacuity -/
 
-/-- the partial theorem speaks about trees in which references *are* accepted and *are* rejected:
+/-- `C17_no_private_route` speaks about trees in which references *are* accepted and *are* rejected:
 `mod a { fn s(){7.0}  pub fn t(){8.0} }  use a::t`: `a::t`, `t` accepted; `a::s` rejected from outside, accepted inside. -/
 example :
     let p : List Item := [.mod false 1 [.fn false 2 [] (.lit 7), .fn true 4 [] (.lit 8)], .use false [1, 4] .single]
@@ -382,15 +393,14 @@ example :
     resolveRef ⟨lowerInfo evs, knownOf evs, [1], []⟩ (.ident 2) = ([1, 2], []) := by
   decide +kernel
 
-/-- `C17_no_private_route` (and `C17_vis_faithful_of_fresh`) speak about trees **with** re-exports in which references
-through them are accepted and rejected:
+/-- … and about trees **with** re-exports in which references through them are accepted and rejected:
 `mod a { fn s(){7.0}  pub fn t(){8.0} }  mod b { pub use a::t  pub use a::s }`: `b::t` accepted (resolves to `a$t`), `b::s`
 rejected from outside `a`, and accepted from inside `a`, where it reaches `a$s` (the route the theorem allows). -/
 example :
     let p : List Item := [.mod false 1 [.fn false 2 [] (.lit 7), .fn true 4 [] (.lit 8)],
       .mod false 3 [.use true [1, 4] .single, .use true [1, 2] .single]]
     let evs := events p
-    ((fnDecls evs).map (·.1)).Nodup ∧ reexportsFresh evs = true ∧ noPubUse evs = false ∧ visFaithful evs = true ∧
+    ((fnDecls evs).map (·.1)).Nodup ∧ noPubUse evs = false ∧ visFaithful evs = true ∧
     resolveRef ⟨lowerInfo evs, knownOf evs, [], []⟩ (.path [3, 4]) = ([1, 4], []) ∧
     resolveRef ⟨lowerInfo evs, knownOf evs, [], []⟩ (.path [3, 2]) = ([1, 2], [⟨[3], some 2⟩]) ∧
     resolveRef ⟨lowerInfo evs, knownOf evs, [1], []⟩ (.path [3, 2]) = ([1, 2], [⟨[3], some 2⟩]) ∧
@@ -398,15 +408,14 @@ example :
   decide +kernel
 
 /-- `C17_no_private_route_consistent`: a tree outside the class of `C17_no_private_route` (the private `a$s` is declared
-twice; `pub use b::t` in `a` exports the name of the *public* function `a$t`) satisfies both hypotheses; `a::s` is
-rejected from outside. -/
+twice; `pub use b::t` in `a` exports the name of the declared function `a$t`, whose entry it no longer replaces) satisfies
+the hypothesis; `a::s` is rejected from outside; `a::t` is `a$t` by its entry and follows the alias to `b$t`. -/
 example :
     let p : List Item := [.mod false 3 [.fn true 4 [] (.lit 9)],
       .mod false 1 [.fn false 2 [] (.lit 7), .fn false 2 [] (.lit 6), .fn true 4 [] (.lit 8), .use true [3, 4] .single]]
     let evs := events p
     (∀ d ∈ fnDecls evs, d.2 = false → (d.1, true) ∉ fnDecls evs) ∧
-    (∀ d ∈ fnDecls evs, d.2 = false → d.1 ∉ exportedNames evs) ∧
-    ¬ ((fnDecls evs).map (·.1)).Nodup ∧ reexportsFresh evs = false ∧
+    ¬ ((fnDecls evs).map (·.1)).Nodup ∧
     resolveRef ⟨lowerInfo evs, knownOf evs, [], []⟩ (.path [1, 2]) = ([1, 2], [⟨[1], some 2⟩]) ∧
     resolveRef ⟨lowerInfo evs, knownOf evs, [], []⟩ (.path [1, 4]) = ([3, 4], []) := by
   decide +kernel
@@ -599,14 +608,13 @@ theorem C17_let_context_by_plain_name_refuted :
     (convertProgram (events letAfter) .unit).2 = [⟨[1], some 2⟩] ∧ letNamesFresh (events letAfter) = true := by
   decide +kernel
 
-/-- **no private route, for whole programs with `let` items.**  In a program in which no `pub use` exports the name of
-a declared function (`reexportsFresh`; in particular: a program without re-exports), without duplicate
-function declarations, and in which no module-level `let` shares its plain name with another binder
+/-- **no private route, for whole programs with `let` items.**  In a program (with any `use` / `pub use` statements)
+without duplicate function declarations in which no module-level `let` shares its plain name with another binder
 (`letNamesFresh`), take ANY item — function or `let`, at top level or in a module `pre`, at any position of the item
 order — and ANY reference occurrence inside it (under local `let`s, lambdas, local `letrec`s), with the module context
 and scopes the pass really has there (`occs`).  If the pass accepts the occurrence, the name it resolves to is not a
 private member of a module that does not enclose `pre`.  (For every `known` set and every outer scope stack.) -/
-theorem C17_no_private_route_program (P : List Ev) (hfr : reexportsFresh P = true)
+theorem C17_no_private_route_program (P : List Ev)
     (hnd : ((fnDecls P).map (·.1)).Nodup) (hfresh : letNamesFresh P = true) (hpl : bodiesPlain P = true)
     (ev : Ev) (hev : ev ∈ P) (pre : List Name) (key : Sym) (rhs : Expr) (hs : ev.site = some (pre, key, rhs))
     (hwf : rhs.refsWf = true) (known : Sym → Bool) (ls : List (List Sym)) :
@@ -641,13 +649,13 @@ theorem C17_no_private_route_program (P : List Ev) (hfr : reexportsFresh P = tru
       simp only [convertExpr, Prod.mk.injEq, Expr.var.injEq] at hres
       have hr : resolveRef ⟨lowerInfo P, known, o.1, o.2.1⟩ (.ident y) = (sym, []) := by
         simp only [resolveRef]; exact Prod.ext hres.1 hres.2
-      exact C17_no_private_route P hnd hfr known o.1 o.2.1 (.ident y) sym rfl hr hpriv
+      exact C17_no_private_route P hnd known o.1 o.2.1 (.ident y) sym rfl hr hpriv
     · rw [hs'] at hres hwfo
       simp only [Expr.refsWf, decide_eq_true_eq] at hwfo
       simp only [convertExpr, Prod.mk.injEq, Expr.var.injEq] at hres
       have hr : resolveRef ⟨lowerInfo P, known, o.1, o.2.1⟩ (.path segs) = (sym, []) := by
         simp only [resolveRef]; exact Prod.ext hres.1 hres.2
-      exact C17_no_private_route P hnd hfr known o.1 o.2.1 (.path segs) sym
+      exact C17_no_private_route P hnd known o.1 o.2.1 (.path segs) sym
         (by unfold Ref.wf; exact decide_eq_true hwfo) hr hpriv
   rcases hcur with h | h
   · rw [h] at key'; exact key'
@@ -738,7 +746,7 @@ all hypotheses; inside the module the private member is accepted, from the top-l
 example :
     let P := events [.mod false 1 [.fn false 2 [] (.lit 42), .letD false 7 (.call (.var [2]))],
       .letD false 8 (.call (.qvar [1, 2])), .fn false 0 [] (.var [8])]
-    reexportsFresh P = true ∧ ((fnDecls P).map (·.1)).Nodup ∧ letNamesFresh P = true ∧ bodiesPlain P = true ∧
+    ((fnDecls P).map (·.1)).Nodup ∧ letNamesFresh P = true ∧ bodiesPlain P = true ∧
     (∀ ev ∈ P, ev.body.refsWf = true) ∧
     siteResult (lowerInfo P) (knownOfT P .unit) [] (P.take 2) (.letS [1] false 7 (.call (.var [2])))
       = (.call (.var [1, 2]), []) ∧
@@ -750,7 +758,7 @@ let y = b::secret()  fn dsp(){ y }` — the top-level `let` is rejected. -/
 example :
     let P := events [.mod false 1 [.fn false 2 [] (.lit 42)], .mod false 3 [.use true [1, 2] .single],
       .letD false 8 (.call (.qvar [3, 2])), .fn false 0 [] (.var [8])]
-    reexportsFresh P = true ∧ noPubUse P = false ∧ ((fnDecls P).map (·.1)).Nodup ∧ letNamesFresh P = true ∧
+    noPubUse P = false ∧ ((fnDecls P).map (·.1)).Nodup ∧ letNamesFresh P = true ∧
     bodiesPlain P = true ∧ (∀ ev ∈ P, ev.body.refsWf = true) ∧
     (convertProgram P .unit).2 = [⟨[3], some 2⟩] := by
   decide +kernel
